@@ -849,3 +849,89 @@ Proof.
   intros b cfg n. unfold script_np, st_build. cbn [script_run st_expand].
   destruct (mat_only (func_np b cfg n)); reflexivity.
 Qed.
+
+(* ---- round 7: object arrays keep every element as the Python object it is (a null anywhere in the list) ---- *)
+Lemma elem_ok_dtype : forall v, elem_ok v = true -> exists d, elem_dtype v = Some d /\ d <> DUInt /\ (v = VNull -> d = DObj).
+Proof.
+  intros v H. unfold elem_ok in H. destruct (elem_dtype v) as [d|] eqn:E; [|discriminate].
+  exists d. split; [reflexivity|]. split.
+  - intros ->. destruct v; simpl in E; try discriminate.
+    destruct (in_int64 z); discriminate.
+  - intros ->. simpl in E. injection E as <-. reflexivity.
+Qed.
+
+Lemma join_not_uint : forall a d x, a <> DUInt -> d <> DUInt -> join a d = Some x -> x <> DUInt.
+Proof.
+  intros a d x Ha Hd H E. subst x. destruct a, d; simpl in H; try discriminate; try congruence.
+Qed.
+
+Lemma join_all_object : forall l acc,
+  acc <> DUInt -> forallb elem_ok l = true -> (acc = DObj \/ existsb is_null l = true) ->
+  join_all acc l = Some DObj.
+Proof.
+  induction l as [|v r IH]; intros acc Hacc Hok Hn.
+  - simpl in *. destruct Hn as [->|Hn]; [reflexivity|discriminate].
+  - cbn [forallb] in Hok. apply andb_true_iff in Hok. destruct Hok as [Hv Hr].
+    destruct (elem_ok_dtype v Hv) as [d [Ed [Hd Hnull]]].
+    cbn [join_all]. rewrite Ed.
+    destruct (join acc d) as [a|] eqn:Ej.
+    + apply IH; [exact (join_not_uint acc d a Hacc Hd Ej) | exact Hr |].
+      destruct Hn as [->|Hn].
+      * left. simpl in Ej. injection Ej as <-. reflexivity.
+      * cbn [existsb] in Hn. apply orb_true_iff in Hn. destruct Hn as [Hn|Hn]; [|right; exact Hn].
+        left. destruct v; try discriminate. rewrite (Hnull eq_refl) in Ej.
+        destruct acc; simpl in Ej; congruence.
+    + assert (Hex : existsb is_null r = true).
+      { destruct Hn as [->|Hn]; [simpl in Ej; discriminate|].
+        cbn [existsb] in Hn. apply orb_true_iff in Hn. destruct Hn as [Hn|Hn]; [|exact Hn].
+        destruct v; try discriminate. rewrite (Hnull eq_refl) in Ej. destruct acc; simpl in Ej; discriminate. }
+      rewrite Hex, Hr. reflexivity.
+Qed.
+
+Lemma np_dtype_object : forall l,
+  existsb is_null l = true -> forallb elem_ok l = true -> np_dtype_of_list l = Some DObj.
+Proof.
+  intros [|v r] Hn Hok; [discriminate|].
+  cbn [forallb] in Hok. apply andb_true_iff in Hok. destruct Hok as [Hv Hr].
+  destruct (elem_ok_dtype v Hv) as [d [Ed [Hd Hnull]]].
+  cbn [np_dtype_of_list]. rewrite Ed. apply join_all_object; [exact Hd | exact Hr |].
+  cbn [existsb] in Hn. apply orb_true_iff in Hn. destruct Hn as [Hn|Hn]; [|right; exact Hn].
+  left. destruct v; try discriminate. apply Hnull. reflexivity.
+Qed.
+
+Lemma np_array_keeps_objects : forall l,
+  In VNull l -> (forall z, In (VInt z) l -> in_int64 z = true) -> np_array l = Ok (DObj, l).
+Proof.
+  intros l Hn Hz. apply np_array_from_dtype.
+  - apply np_dtype_object.
+    + apply existsb_exists. exists VNull. split; [exact Hn|reflexivity].
+    + apply forallb_forall. intros v Hv. unfold elem_ok. destruct v; try reflexivity.
+      simpl. rewrite (Hz z Hv). reflexivity.
+  - apply Forall_forall. intros v _. destruct v; exact I.
+Qed.
+
+
+Lemma Forall2_eq_list : forall (l out : list val) (P : val -> val -> Prop),
+  (forall x y, P x y -> y = x) -> Forall2 P l out -> out = l.
+Proof.
+  intros l out P HP H. induction H as [|x y l' out' Hxy _ IH]; [reflexivity|].
+  rewrite (HP x y Hxy), IH. reflexivity.
+Qed.
+
+Lemma sparse_object_null_exact : forall l o,
+  In VNull l -> (forall z, In (VInt z) l -> in_int64 z = true) ->
+  sparse_np l VNull None = Ok o ->
+  exists idx vals dt, o = mkobs [vals; l] [idx] [DObj; dt] /\
+                      (idx, vals, length l) = sparse_encode (np_neqb DObj) l VNull.
+Proof.
+  intros l o Hn Hz Ho.
+  pose proof (np_array_keeps_objects l Hn Hz) as Ha.
+  destruct (sparse_np_lossless l VNull DObj l o Ha Ho) as [idx [vals [dt [fill [out [Eo [Eenc [Hdt [Hfill [_ [_ HF]]]]]]]]]]].
+  exists idx, vals, dt. split; [|exact Eenc].
+  assert (Efill : fill = VNull).
+  { destruct dt; simpl in Hfill; try discriminate. injection Hfill as <-. reflexivity. }
+  assert (out = l) as ->; [|exact Eo].
+  eapply Forall2_eq_list; [|exact HF].
+  intros x y [->|[He ->]]; [reflexivity|].
+  rewrite Efill. destruct x as [|b|z|f|s]; simpl in He; try discriminate; try reflexivity. destruct f; discriminate.
+Qed.
